@@ -57,6 +57,7 @@ type result struct {
 	Switches     int               `json:"thread_switches"`
 	Solver       string            `json:"solver"`
 	ForkStats    map[string]int    `json:"fork_stats"`
+	CollisionOnly int              `json:"counterexamples_needing_checksum_collision"`
 }
 
 func main() {
@@ -77,8 +78,13 @@ func main() {
 	var paramFlags multiFlag
 	flag.Var(&paramFlags, "param", "name=value (repeatable)")
 	cpuprof := flag.String("cpuprofile", "", "")
+	mscan := flag.Bool("metricscan", false, "static scan of metric emitting call sites (C20)")
 	stopFirst := flag.Bool("stopfirst", false, "stop at first violation outside known regions")
 	flag.Parse()
+	if *mscan {
+		metricScan(*dir, *out)
+		return
+	}
 
 	if *cpuprof != "" {
 		f, _ := os.Create(*cpuprof)
@@ -206,6 +212,7 @@ func main() {
 	}
 	res.Stubs = m.stubsUsed
 	res.ForkStats = m.forkStats
+	res.CollisionOnly = m.collisionOnly
 	res.Deadlocks = m.deadlocks
 	res.Switches = m.switches
 	// dedupe inconclusive
@@ -268,6 +275,7 @@ func (m *Machine) runPath(hp *ssa.Package, fn *ssa.Function, res *result) (compl
 	m.events = nil
 	m.knownTag = ""
 	m.crcs = nil
+	m.sumOf = map[*Term]*idealSum{}
 	m.names = map[string]int{}
 	m.threads = nil
 	m.pendingAbort = nil
